@@ -104,6 +104,11 @@ def walk(args):
                 cands = bld.candidates(cur)
                 if not cands:
                     break
+                if tid == -1:      # scale-up walk: every proposed update is applied and judged, not only the chosen one
+                    snap = copy.deepcopy(cur)
+                    recs.append({"t": tid, "h": h, "w": w, "bnd": b, "before": to_cells(cur, w), "status": "ok", "exc": "",
+                                 "updates": [{"after": to_cells(bld.copy_with_update(cur, u), w), "before_unchanged": cur == snap}
+                                             for u in cands]})
                 upd = rng.choice(cands)
                 nxt = bld.copy_with_update(cur, upd)
                 # no earlier value may have been modified by producing a later one
@@ -203,6 +208,11 @@ def run(tier, seed):
         if not (minB * minS <= n <= maxB * maxS):
             continue
         wj.append((0, h, w, b, seed * 7919 + i, 25 if tier == "quick" else 60))
+    # scale-up: boards with a side of 16 and more (few blocks, so that blocks span several rows), every proposed update
+    # of every visited value judged
+    for i, (h, w) in enumerate([(3, 16), (2, 17), (17, 2), (2, 16)] * (1 if tier == "quick" else 6)):
+        b = {"minB": 1, "maxB": 3 + i % 2, "minS": 1, "maxS": h * w}
+        wj.append((-1, h, w, b, seed * 7919 + 5000 + i, 40 if tier == "quick" else 120))
     with RobustPool(NPROC) as pool:
         wouts = pool.map(walk, chunks(wj, NPROC * 2))
     wrecs = [x for o in wouts for x in o]
